@@ -49,6 +49,9 @@ func withTimeout(d time.Duration, f func()) bool {
 	}
 }
 
+// tailEnvInitial is what the tailed file holds before the tailer starts (C16 `pre:` step).
+var tailEnvInitial []byte
+
 func newTailEnv(existing bool, patterns []string, ignore string, dirOverride string) (*tailEnv, error) {
 	dir := dirOverride
 	if dir == "" {
@@ -60,7 +63,7 @@ func newTailEnv(existing bool, patterns []string, ignore string, dirOverride str
 	}
 	e := &tailEnv{dir: dir, path: filepath.Join(dir, "log"), lines: make(chan *logline.LogLine)}
 	if existing {
-		if err := os.WriteFile(e.path, nil, 0o644); err != nil {
+		if err := os.WriteFile(e.path, tailEnvInitial, 0o644); err != nil {
 			return nil, err
 		}
 		e.alive = 1
@@ -272,7 +275,12 @@ func c16Spec(ops []string) []string {
 
 func c16Run(r *runCtx, id string, f []string) {
 	ops := strings.Split(f[1], ";")
+	tailEnvInitial = nil
+	if strings.HasPrefix(ops[0], "pre:") {
+		tailEnvInitial = []byte(unhx(ops[0][4:]))
+	}
 	env, err := newTailEnv(true, nil, "", "")
+	tailEnvInitial = nil
 	if err != nil {
 		r.obs(id, "ENV-ERROR")
 		r.fail(id, "harness", "%v", err)
@@ -316,6 +324,8 @@ func c16Run(r *runCtx, id string, f []string) {
 				_ = os.WriteFile(env.path, nil, 0o644)
 				exists = true
 			}
+		case "pre":
+			// already in the file when the tailer started
 		}
 		after, afterPoll := 0, 0
 		if env.alive == 1 && exists {
@@ -371,6 +381,15 @@ func init() {
 				}
 			}
 			rec(nil)
+			// the file already has content (complete lines, or ending in a fragment) when tailing
+			// starts; nothing of it is delivered, everything appended later is
+			for _, pre := range []string{"old1\nold2\n", "old\nfr"} {
+				for _, a := range alphabet {
+					for _, b := range alphabet {
+						g.emit("fs", "pre:"+hx(pre)+";"+a+";"+b+";a:"+hx("end\n"))
+					}
+				}
+			}
 			n := 100
 			if g.thorough() {
 				n = 2000
@@ -398,6 +417,9 @@ func init() {
 					default:
 						ops[j] = alphabet[4+g.r.intn(6)]
 					}
+				}
+				if g.r.chance(1, 3) {
+					ops = append([]string{"pre:" + hx(g.r.pick([]string{"old1\nold2\n", "o\nfr", "x"}))}, ops...)
 				}
 				g.emit("fs", strings.Join(ops, ";"))
 			}
